@@ -1,7 +1,7 @@
 from common import LEAN_TB
 
-CFG = {'lean_modules': ['ObiVerif.Props.C20', 'ObiVerif.Props.C20BV'],
- 'gen': False,
+CFG = {'lean_modules': ['ObiVerif.Props.C20', 'ObiVerif.Props.C20BV', 'ObiVerif.Props.C20BV2', 'ObiVerif.Props.C20Gen'],
+ 'gen': True,
  'thorough_seeds': 8,
  'rule': 'cases = (width, operation, operands). Fixed corpus: every exported method of Uint64/Uint128/Uint256 and the generic constructors of unint.go on '
          'every word-boundary value of the width (0, 1, 2, 2^k-1, 2^k, 2^k+1 around each limb boundary, 2^(w-1), 2^w-2, 2^w-1; thorough adds k=1,31..33,62,65,'
@@ -9,11 +9,13 @@ CFG = {'lean_modules': ['ObiVerif.Props.C20', 'ObiVerif.Props.C20BV'],
          'amount 0..width+64 on three fixed values per width and the amounts 0,1,31,63,64,65,127,128,129,191,192,193,255,256,257,300,319,320,2^32,2^63,2^64-1 '
          'on every boundary value; LeftShift64/RightShift64 with those amounts x six carry-in words; Add64/Sub64 with carry-in 0 and 1. Then random cases '
          '(12000 quick / 400000 per seed thorough) with limbs drawn from boundary values, small values and random words, near-equal operand pairs one time '
-         'in six. A case is non-trivial when it is distinct and is a well-formed operation (not bad-op)',
+         'in six. Every case also captures the logrus warnings logged by the call (hook at Warn level): the count is part of the result line (` warn=<k>`) and is compared with the model for every method; statistics warn:<width>.<op>. A case is non-trivial when it is distinct and is a well-formed operation (not bad-op)',
  'trusted_base': LEAN_TB + ['math/bits Add64/Sub64/Mul64/Div64/LeadingZeros64 modelled by their documented arithmetic meaning (carry/borrow input 0 or 1)',
+ 'the go/ast -> Lean translator /verif/extract/fpgen.go (its reading of Go: uint64 +,-,* wrap, shifts, let-rebinding, if/switch chains, log.Panicf = error, log.Warnf = counted)',
  'math/big as the independent oracle of the failing-input search'],
- 'technique': 'Lean 4 theorems on a limb-level model of obifp (stated on Nat values and again on BitVec 64/128/256) + differential correspondence with the '
-              'real methods + math/big oracle search',
+ 'technique': 'Lean 4 theorems on a limb-level model of obifp (stated on Nat values and again on BitVec 64/128/256) + T1 tie: the method bodies are re-translated '
+              'from the Go source to Lean on every run (extract/fpgen.go -> Gen/FpGen.lean) and proved equal to the model + differential correspondence with the '
+              'real methods (values, panics and logrus warnings) + math/big oracle search',
  'level_text': 'One exactness theorem for EVERY exported method of pkg/obifp (`grep "^func (u Uint"`: 28 on Uint64, 32 on Uint128, 24 on Uint256) '
                'and for ZeroUint/OneUint/From64, proved in Lean for all operands on a limb-by-limb transcription of uint64.go/uint128.go/uint256.go/unint.go: '
                'Add/Sub/Mul/Add64/Mul64 return the exact value when it fits and panic exactly when it does not; LeftShift/RightShift by ANY amount are '
@@ -24,22 +26,47 @@ CFG = {'lean_modules': ['ObiVerif.Props.C20', 'ObiVerif.Props.C20BV'],
                'value mod 2^target when narrowing (so every value that fits is preserved, and the Go warning condition is exactly "does not fit"). '
                'Props/C20BV.lean restates add/sub/mul (with BitVec.uaddOverflow/usubOverflow/umulOverflow as the panic condition), shifts, bitwise ops, '
                'ult/ule/equality, udiv/umod and the casts (setWidth) against Lean BitVec 64/128/256, and shows the value is the concatenation of the limbs '
-               'as 64-bit words, so the Nat-mod-2^w reading coincides with machine words. The transcription is tied to /repo by running model and real '
-               "methods on the same operand lines every run. Uint128.Mul is proved only for operands with one zero high limb (known finding D27b, pinned "
+               'as 64-bit words, so the Nat-mod-2^w reading coincides with machine words. Props/C20BV2.lean completes the list: QuoRem/QuoRem64/Div64/Mod64 (udiv/umod by the zero-extended word), Cmp64, Set64, Zero, MaxValue (allOnes), IsZero, '
+               'GreaterThan/GreaterThanOrEqual, AsUint64 (setWidth 64), the no-op casts, ZeroUint/OneUint/From64 and the Uint64 carry forms Add64/Sub64/Mul64/LeftShift64/'
+               'RightShift64 as 128-bit registers - every exported method now has a Nat-level and a BitVec-level theorem. log.Warnf is an outcome component (…Warns = '
+               'number of warnings logged): the narrowing casts warn exactly once iff the value does not fit and never otherwise (u128_toU64_warns_exact, '
+               'u256_toU64_warns_exact, u256_toU128_warns_exact, narrowing_cast_outcome), LeftShift64/RightShift64 warn iff n >= 128 (shift64_warns_exact; hence Uint64 '
+               'shifts once, Uint128 shifts twice, Uint256 shifts never: u64/u128/u256_shift_warns_exact). TIE, two layers: (T1) extract/fpgen.go re-translates the body of '
+               '89 of the 93 functions of uint64.go/uint128.go/uint256.go/unint.go (all but the four with a `for`: Uint256.LeftShift, RightShift, Mul, Div) from the Go AST '
+               'into Gen/FpGen.lean on every run, and Props/C20Gen.lean proves Gen.Fp.<method> = Fp.<method> for each of them (gen_<W>_<method>; 9 warning counts '
+               'gen_<W>_<method>_warns; the lists of translated / untranslated / may-panic / may-warn functions are pinned by rfl), so an edit of one of those Go bodies '
+               'breaks a proof before the harness runs; (T2) the model (incl. the four hand-transcribed loop methods) and the real '
+               "methods run on the same operand lines every run (values, panics, warning counts). Uint128.Mul is proved only for operands with one zero high limb (known finding D27b, pinned "
                "by the repository's own test; counterexample theorem u128_mul_hh_not_exact).",
- 'level_note': 'Trusted: Lean kernel; math/bits primitives modelled by their documented meaning; the hand transcription (validated differentially, ~34k '
-               'operand lines per quick run, every method of every width among them). Partial: Uint128.Mul (u128_mul_exact_partial / u128_mul_partial_bv, '
+ 'level_note': 'Trusted: Lean kernel; math/bits primitives modelled by their documented meaning; the translator extract/fpgen.go (about 700 lines of Go: the semantics it gives to '
+               'the Go fragment it accepts is listed at the top of the file; anything outside the fragment is refused, not approximated); the hand transcription of the FOUR methods with '
+               'loops that the translator does not handle (Uint256.LeftShift, RightShift, Mul, Div: tied by correspondence only, ~50k operand lines per quick run, every method of every '
+               'width among them). The other 89 functions are regenerated and proved equal to the model on every run (Props/C20Gen.lean); gen_U128_quoRem/div/mod need the hypothesis '
+               'u.WF (the Go `tq--` wraps, the model subtracts in Nat: equal because the trial quotient of well-formed limbs is below 2^64), all other equalities are unconditional. '
+               'Seven source mutants (dropped carry, < to <=, wrong Cmp sign, 63-n to 64-n, narrowed warning condition, a loop added to a method, a new method) each break at least one '
+               'proof of Props/C20Gen.lean with the harness not run (checked by hand, /tmp only). The table extraction and the obifp translation share one extractor run: a table of '
+               'another property that stops being a literal makes this property report a broken T1 tie as well. Partial: Uint128.Mul (u128_mul_exact_partial / u128_mul_partial_bv, '
                'hypothesis u.w1 = 0 or v.w1 = 0; false without it). Preconditions stated in the theorems rather than removed: carry/borrow input <= 1 for '
                'Uint64.Add64/Sub64 (bits.Add64/Sub64 leave other values undefined; the harness only generates 0 and 1); 64-bit word arguments < 2^64. '
-               'log.Warnf calls (narrowing casts that drop bits, LeftShift64/RightShift64 with n >= 128) are not modelled as an outcome: the theorems '
-               'state the returned value and, for the casts, that the warning condition is exactly "value does not fit". The oracle demands only what the '
+               'log.Warnf calls are an outcome component since the third pass: the model counts them (toU64Warns, toU128Warns, leftShift64Warns, …), the harness captures logrus '
+               'warnings with a hook and the count is compared on every case line of every method; the oracle (math/big, independent of the model) demands exactly one overflow warning '
+               'iff the value does not fit for Uint128.Uint64 / Uint256.Uint64 / Uint256.Uint128 and none for the widening / no-op casts (sig <w>.to<k>.warn). The warning counts of the '
+               'Uint256 shifts (always 0) are hand transcribed (loop methods) and proved (u256_shift_warns_exact); the QuoRem family may syntactically reach a Warnf through '
+               'LeftShift/RightShift but never does (n <= 63): modelled as 0, tied by the harness only. The message text of a warning is not modelled (the oracle checks it contains '
+               '"overflow"). The value oracle demands only what the '
                'property states (narrowing casts/AsUint64 are checked against math/big when the value fits; LeftShift64/RightShift64 for n < 128; a zero '
                'divisor carries no demand) - outside that the model comparison alone pins the behaviour. Index method -> theorem: <w>_add/sub/mul/cmp/'
                'shl/shr/and/or/xor/not/zero/maxValue/isZero/set64/asUint64/toU64/toU128/toU256/equals/lessThan/lessThanOrEqual/greaterThan/'
                'greaterThanOrEqual_exact for w in u64,u128,u256; u64_add64/sub64/mul64/leftShift64/rightShift64_exact (+ _register); u128_add64/mul64/'
                'cmp64/quoRem/quoRem64/div/mod/div64/mod64_exact, u128_div_mod_char, u128_div64_mod64_char, u128_quoRem_zero, u128_quoRem64_zero; '
-               'u256_div_exact, u256_div_zero; zeroUint_exact, oneUint_exact, from64_exact.',
- 'modelled': 'pkg/obifp uint64.go, uint128.go, uint256.go: every exported method, limb by limb; unint.go: ZeroUint/OneUint/From64 at the three widths '
-             '(Model/Fp.lean)',
- 'assumptions': ['log.Warnf has no effect on results', 'log.Panicf is the only overflow signal',
+               'u256_div_exact, u256_div_zero; zeroUint_exact, oneUint_exact, from64_exact. `go doc ./pkg/obifp` lists no other exported function (From64, OneUint, ZeroUint, the '
+               'interface FPUint and the three types; no String/Format/Bytes method exists). BitVec index (Props/C20BV + C20BV2): <w>_<op>_bv for every op above, i.e. additionally '
+               'u128_quoRem/quoRem64/div64/mod64/cmp64_bv, <w>_set64/zero/maxValue/isZero/asUint64/greaterThan/greaterThanOrEqual_bv, u64_toU64/u128_toU128/u256_toU256_bv, '
+               'zeroUint/oneUint/from64_bv, u64_add64/sub64/mul64/leftShift64/rightShift64_bv (128-bit registers; shift forms for n < 128). Warnings: u128_toU64_warns_exact, '
+               'u256_toU64_warns_exact, u256_toU128_warns_exact, narrowing_cast_outcome, shift64_warns_exact, u64/u128/u256_shift_warns_exact. T1: gen_<W>_<method> (80), '
+               'gen_zeroUint/oneUint/from64, gen_<W>_<method>_warns (9), gen_translated/untranslated/withWarnCount/mayWarn/mayPanic.',
+ 'modelled': 'pkg/obifp uint64.go, uint128.go, uint256.go: every exported method, limb by limb, and the number of log.Warnf calls each one executes; unint.go: '
+             'ZeroUint/OneUint/From64 at the three widths (Model/Fp.lean); the same functions except the four loop methods, regenerated from the Go AST (Gen/FpGen.lean)',
+ 'assumptions': ['log.Warnf has no effect on the returned value (logrus; its count is compared)', 'log.Panicf is the only overflow signal',
+                 'go/parser sees the same method bodies as the compiler (no build tags / generated files in pkg/obifp besides verif_hooks.go, which the translator skips)',
                  'bits.Add64/Sub64 are called with carry/borrow 0 or 1 (their documented domain)']}
